@@ -11,6 +11,7 @@ import DvcData.Model.IndexDiff
 import DvcData.Model.IndexCheckout
 import DvcData.Model.IndexSave
 import DvcData.Model.Staging
+import DvcData.Model.Fetch
 import DvcData.Model.State
 import DvcData.Model.Store
 import DvcData.Model.Checkout
@@ -398,6 +399,20 @@ def opStaging (j : Lean.Json) : Except String Lean.Json := do
   let store := steps.foldl (fun st (x : Staging.Fs × List String) =>
     Staging.transferStaged now (Staging.stage md5Of x.1 (x.1.map (·.1))) x.2 st) ([] : Staging.Store)
   pure (Lean.Json.mkObj [("store", Lean.Json.arr (store.map fun e => Lean.Json.arr #[.str e.1, .str (md5Of e.2)]).toArray)])
+
+/-- `fetch` from a file-storage remote into an object cache: (fetched, failed) and the cache afterwards -/
+def opFetchCounts (j : Lean.Json) : Except String Lean.Json := do
+  let cache ← strList j "cache"
+  let items ← (← arr j "items").toList.mapM fun e => do
+    let kind ← match (← (← e.getArrVal? 1).getStr?) with
+      | "ok" => pure Fetch.Copy.ok
+      | "missing" => pure Fetch.Copy.missing
+      | "failed" => pure Fetch.Copy.failed
+      | k => throw s!"fetch_counts: bad kind {k}"
+    pure ({ oid := ← (← e.getArrVal? 0).getStr?, copy := kind } : Fetch.Item)
+  let r := Fetch.fetch cache items
+  pure (Lean.Json.mkObj [("fetched", r.fetched), ("failed", r.failed), ("cache", strArr r.cache),
+    ("had_to_move", (Fetch.hadToMove cache items).length)])
 
 def optEntryOf (j : Lean.Json) : Except String (Option MetaInfo.Entry) :=
   match j with | .null => pure none | j => do pure (some (← entryOf j))
@@ -790,6 +805,7 @@ def dispatch (j : Json) : Except String Json := do
   | "diff_entry" => opDiffEntry j
   | "index_save" => opIndexSave j
   | "staging" => opStaging j
+  | "fetch_counts" => opFetchCounts j
   | "idx_checkout" => opIdxCheckout j
   | "state_history" => opStateHistory j
   | "store_history" => opStoreHistory j
